@@ -24,7 +24,7 @@
 #define ARENA 1024
 #define BASE  256
 static uint8_t mem[ARENA], shadow[ARENA];
-static int allow_get = 1, allow_set = 1, allow_init = 1, allow_legacy = 1, allow_views = 1;
+static int allow_get = 1, allow_set = 1, allow_init = 1, allow_legacy = 1, allow_views = 1, allow_bad = 1;
 
 int LLVMFuzzerInitialize(int* argc, char*** argv)
 {
@@ -32,7 +32,7 @@ int LLVMFuzzerInitialize(int* argc, char*** argv)
     const char* o = getenv("VP_FUZZ_OPS");
     if (o && strcmp(o, "all") != 0) {
         allow_get = strstr(o, "get") != 0; allow_set = strstr(o, "set") != 0; allow_init = strstr(o, "init") != 0;
-        allow_legacy = strstr(o, "legacy") != 0; allow_views = strstr(o, "views") != 0;
+        allow_legacy = strstr(o, "legacy") != 0; allow_views = strstr(o, "views") != 0; allow_bad = strstr(o, "badargs") != 0;
     }
     return 0;
 }
@@ -79,6 +79,20 @@ int LLVMFuzzerTestOneInput(const uint8_t* d, size_t len)
         { static const int ev[4] = { 0, EINVAL, ERANGE, EINVAL }; errno = ev[(d[o] >> 3) & 3]; }    /* errno left by unrelated earlier calls */
         if (sel == 1 && !fld->dget) sel = 0;
         if (sel == 2 && (!f->lget || fld->id >= f->max_id || !allow_legacy)) sel = 0;
+        if ((d[o] & 0x40) && allow_bad) {               /* a call the library must reject: identifier outside the enumeration */
+            uint32_t bid = (arg & 1) ? f->max_id + (arg >> 1) : (uint32_t)(v >> 32) | (f->max_id <= 0xff ? 0x100u : 0x10000u);
+            if (bid < f->max_id) bid = f->max_id;
+            uint64_t r64 = 0x5a5a5a5a5a5a5a5aull; int rc = 0;
+            if (kind <= 4) {
+                if (sel == 2) { rc = f->lget(p, bid, &r64); if (rc != -EINVAL || r64 != 0x5a5a5a5a5a5a5a5aull) fail(f, "-", "legacy-get", "invalid-identifier-not-rejected", before, n, bid, (uint64_t)(int64_t)rc, 0); }
+                else { uint64_t got = f->gget(p, bid); if (got != 0) fail(f, "-", "generic-get", "invalid-identifier-nonzero-result", before, n, bid, got, 0); }
+            } else {
+                if (sel == 2) { rc = f->lset(p, bid, (arg & 2) ? 0 : v); if (rc != -EINVAL) fail(f, "-", "legacy-set", "invalid-identifier-not-rejected", before, n, bid, (uint64_t)(int64_t)rc, 0); }
+                else f->gset(p, bid, v);
+            }
+            check_arena(f, "-", "rejected-call", before, n, bid);
+            continue;
+        }
         if (kind == 0 || kind == 1) {                   /* initialisers */
             if (!allow_init || !f->image) continue;
             if (kind == 1 && f->linit && allow_legacy) {
